@@ -111,11 +111,7 @@ func checkHandleAlive(c *Ctx) {
 			if v, ok := cubeAtom(e.Cube, "decode(", "==nil"); !ok || v != "T" {
 				return false, "decode result not checked on this path"
 			}
-			must, okm := cubeAtom(e.Cube, "?m.config.IPMustBeChecked()", "")
-			if !okm {
-				// inlined: len(c.CIDRsAllowed) > 0
-				must, okm = cubeAtom(e.Cube, "len(m.config.CIDRsAllowed)>=1", "")
-			}
+			must, okm := e.Cube["ipCheck"]
 			if !okm {
 				return false, "allow-list-active test missing"
 			}
@@ -145,7 +141,7 @@ func checkHandleAlive(c *Ctx) {
 		ok := true
 		why := ""
 		if ex.Ret[0] == "nil" {
-			must, _ := cubeAtom(ex.Cube, "len(m.config.CIDRsAllowed)>=1", "")
+			must := ex.Cube["ipCheck"]
 			pipe := false
 			for k, v := range ex.Cube {
 				if strings.HasPrefix(k, "eq(") && strings.Contains(k, "pipe") && v == "T" {
@@ -179,7 +175,7 @@ func checkIPAllowed(c *Ctx) {
 			continue
 		}
 		n++
-		must, okm := cubeAtom(ex.Cube, "len(", ".CIDRsAllowed)>=1")
+		must, okm := ex.Cube["ipCheck"]
 		contains := false
 		for k, v := range ex.Cube {
 			if strings.Contains(k, ".Contains(ip") && v == "T" {
